@@ -113,7 +113,13 @@ type UFunc struct {
 	Line   int
 }
 
+type GlobalCheck struct {
+	Name  string
+	Props []string
+}
+
 type ContractSet struct {
+	Checks  []GlobalCheck
 	Events  map[string]*EventDecl
 	UFuncs  map[string]*UFunc
 	Axioms  []*Lemma
@@ -440,6 +446,14 @@ func (cs *ContractSet) parseFile(root, file string) error {
 			}
 			sf := &SpecFunc{Rec: kw == "rec", Pkg: pkg, Name: name, Params: params, Result: resT, Body: e, Src: src, File: file, Line: c.line}
 			cs.Specs[pkg+"."+name] = sf
+			cur = nil
+		case "check":
+			fields := strings.Fields(rest)
+			if len(fields) == 0 {
+				return bad(c, "check needs a name")
+			}
+			props, _ := parseProps(fields[1:])
+			cs.Checks = append(cs.Checks, GlobalCheck{Name: fields[0], Props: props})
 			cur = nil
 		case "event":
 			op := strings.Index(rest, "(")
